@@ -18,6 +18,8 @@ CLAUSES = {
     "41": "C04: an inbound QoS 1 PUBLISH (operation 17) on a healthy server connection (open before and after, no "
           "streamed payload owed, packet id != 0) was not answered: its PUBACK is missing from the wire",
     "51": "C05: a QoS>0 packet was written although the window was full (outstanding >= cap) or back-pressure was on",
+    "53": "C05: client role: the send window after CONNACK is not the limit announced by the server (v5 Receive "
+          "Maximum; v3: the configured max_send)",
     "52": "C05: more packets in flight than the send limit (inflight > cap) after a send",
     "61": "C06: a send completed successfully without the matching acknowledgement (type and id) of the oldest "
           "outstanding packet having arrived",
@@ -95,6 +97,10 @@ def track(ver, case, obs, want):
             return "0,1,%d" % i
         code = op[0] if op else 0
         t = op[1] if len(op) > 1 else None
+        if 5 in want and i == 0 and role != 0 and is_open and code != 9 and cap != cap0 % 65536:
+            # client role: the window in force after CONNACK is the limit the server announced (v5: its Receive
+            # Maximum; v3: the configured max_send) -- the first configuration field of the case
+            return "0,53,0"
         if code == 19:
             code = 1                           # a spawned send: started and polled at once
         # who writes a PUBLISH / SUBSCRIBE / UNSUBSCRIBE in this operation: the task the operation names, or -- in an
